@@ -131,6 +131,7 @@ func runC04(c *Ctx) {
 	s := p.Selectors()
 	s.checkExitCodeProvenance(c, "exitcode-provenance")
 	s.checkDaemonRelease(c, "daemon-released-after-configured-stop")
+	s.checkOrderedOrderComplete(c)
 	shut := s.shutdownFn()
 
 	s.checkRunJoins(c, "run-joins")
